@@ -319,10 +319,12 @@ def build(spec, dirpath, write_params=True):
         data = rs.randn(nt, nsw, nloc).astype(t['dtype'])
     if not t['dense']:
         for k in range(nt):
+            real = [j for j, c in enumerate(t['cols'][k]) if c != -1]
             for j in t['zero_cols'][k]:
-                data[k, :, j] = 0
-            if not np.any(data[k] != 0):
-                data[k, 0, 0] = 1.0
+                if j != real[0]:        # a template always has signal on >= 1 real channel
+                    data[k, :, j] = 0
+            if not np.any(data[k, :, real[0]] != 0):
+                data[k, 0, real[0]] = 2.0
         T.tcols = np.array(t['cols'], dtype=t['cols_dtype'])
         save('template_ind.npy', T.tcols)
     else:
